@@ -143,6 +143,7 @@ def _gen_cached(ctx, key_parts, module, runner):
     if os.path.exists(path) and not os.environ.get("VERIF_X09_NOCACHE"):
         try:
             c = json.load(open(path))
+            os.utime(path)
             return c["scns"], _Gen(c["distinct"], c["generated"])
         except Exception:
             pass
@@ -151,7 +152,21 @@ def _gen_cached(ctx, key_parts, module, runner):
     with open(tmp, "w") as f:
         json.dump({"scns": got, "distinct": g.distinct, "generated": g.generated}, f)
     os.replace(tmp, path)
+    _prune_cache(d)
     return got, _Gen(g.distinct, g.generated)
+
+
+def _prune_cache(d, max_bytes=400 << 20):
+    """The cache is keyed by spec text: entries of older spec versions are dead weight. Keep the most recently used ones."""
+    try:
+        ent = sorted(((os.path.getatime(os.path.join(d, f)), os.path.getsize(os.path.join(d, f)), f) for f in os.listdir(d) if f.endswith(".json")), reverse=True)
+        tot = 0
+        for at, sz, f in ent:
+            tot += sz
+            if tot > max_bytes:
+                os.remove(os.path.join(d, f))
+    except OSError:
+        pass
 
 
 OPF = ["o", "t", "h", "s", "r", "e", "cap", "m", "mode", "v", "inl", "to", "conc", "opt", "p", "pv"]
@@ -203,16 +218,19 @@ def seq_plan(ctx):
     bound; a class larger than its budget is sampled by seed."""
     t = ctx.thorough
     return [
-        ("handle", dict(L=7 if t else 6, Alpha=S(*HANDLE), MaxE=2), 3500, 60000),
+        ("handle", dict(L=7 if t else 6, Alpha=S(*HANDLE), MaxE=2), 3500, 40000),
         ("handle-2topics", dict(L=5 if t else 4, Alpha=S("join", "close", "sub", "cancel", "relay", "unrelay", "psub"), GT=S("A", "B"), MaxH=3, MaxS=3), 1400, 20000),
-        ("delivery", dict(L=7 if t else 6, Alpha=S("sub", "cancel", "next", "pub", "close"), Caps=I(1, 2), ProName='"joinA"', MaxS=2, MaxM=5), 3000, 50000),
+        ("delivery", dict(L=7 if t else 6, Alpha=S("sub", "cancel", "next", "pub", "close"), Caps=I(1, 2), ProName='"joinA"', MaxS=2, MaxM=5), 3000, 40000),
         ("closed", dict(L=3, Alpha=S("sub", "relay", "evh", "pub", "addb", "lp", "str", "score", "close", "join", "psub", "ppub", "cancel", "next"),
                         ProName='"closedA"', Caps=I(1)), 1200, 6000),
         ("rejoin", dict(L=4 if t else 3, Alpha=S("sub", "relay", "evh", "pub", "close", "join", "cancel", "next", "unrelay"), ProName='"rejoinA"', Caps=I(1)), 800, 12000),
         ("hidden", dict(L=5 if t else 4, Alpha=S("psub", "ppub", "join", "close", "cancel", "sub", "next", "plp"), Caps=I(1)), 800, 10000),
         ("fanout", dict(L=4, Alpha=S("join", "sub", "cancel", "relay", "pub", "close", "next"), JoinOpts=S("fan"), Caps=I(1)), 1500, 5000),
-        ("validators", dict(L=5 if t else 4, Alpha=S("reg", "unreg", "pub", "next", "ppub", "addb"), Vals=S("accept", "reject", "ignore", "bad", "rejectTo", "rejectBool", "acceptBool", "rejectV", "ignoreEx", "weird"),
-                            IdFn='"name"', ProName='"subA12"', MaxM=3), 3000, 30000),
+        ("validators", dict(L=5 if t else 4, Alpha=S("reg", "unreg", "pub", "next", "ppub", "addb"),
+                            Vals=S("accept", "reject", "ignore", "bad", "rejectTo") if t else S("accept", "reject", "ignore", "bad", "rejectTo", "rejectBool", "acceptBool", "rejectV", "ignoreEx", "weird"),
+                            IdFn='"name"', ProName='"subA12"', MaxM=3), 3000, 25000),
+        ("validator-types", dict(L=4 if t else 3, Alpha=S("reg", "unreg", "pub", "next"), Vals=S("reject", "rejectBool", "acceptBool", "rejectV", "ignoreEx", "weird", "bad"),
+                                 ProName='"subA12"', MaxM=3), 600, 8000),
         ("validators-handles", dict(L=5 if t else 4, Alpha=S("reg", "unreg", "pub", "join", "close"), Vals=S("reject"), ProName='"joinA"', MaxM=3), 600, 6000),
         ("validators-2topics", dict(L=4 if t else 3, Alpha=S("reg", "unreg", "pub", "next"), GT=S("A", "B"), Vals=S("reject", "ignore"), ProName='"subAB"', MaxM=3), 700, 8000),
         ("modes", dict(L=2, Alpha=S("pub", "reg", "next"), Modes=S(*ALLMODES), Vals=S("reject", "acceptTo"), ProName='"subA12"', MaxM=6, **NET), 1500, 3000),
@@ -222,7 +240,8 @@ def seq_plan(ctx):
         ("joinopt", dict(L=5 if t else 4, Alpha=S("join", "close", "pub", "sub", "next"), JoinOpts=S("", "K"), IdFn='"name"', Caps=I(2), MaxM=3), 1500, 8000),
         ("net", dict(L=5 if t else 4, Alpha=S("sub", "cancel", "relay", "unrelay", "rmsg", "pub", "next", "lp"), Caps=I(1), ProName='"joinA"', MaxM=4, **NET), 1000, 9000),
         ("net-validators", dict(L=5 if t else 4, Alpha=S("rmsg", "reg", "unreg", "rel", "next", "cancel"), Caps=I(1),
-                                Vals=S("reject", "ignore", "block1", "block2", "rejectTo", "acceptInl", "rejectInl", "rejectBool", "weird"), ProName='"subA1"', MaxM=4, **NET), 1200, 9000),
+                                Vals=S("reject", "block1", "block2", "acceptInl") if t else S("reject", "ignore", "block1", "block2", "rejectTo", "acceptInl", "rejectInl", "rejectBool", "weird"),
+                                ProName='"subA1"', MaxM=4, **NET), 1200, 9000),
         ("net-rsub", dict(L=4, Alpha=S("rsub", "pub", "rmsg", "lp", "plp", "relay", "close"), ProName='"joinA"', MaxM=3, NPeers=2, PSubs1=S("A"), PSubs2="{}"), 500, 3000),
     ]
 
@@ -692,7 +711,7 @@ def replay_conc(ctx, rng, binp, only=None):
     if len(noq) > max(3, len(hist) // 20):
         raise vlib.Inconclusive("too many concurrent histories without quiescence (%d)" % len(noq))
     if gaveup:
-        ctx.notes.append("%d concurrent driver shard(s) stopped early after 8 histories in which a call never returned" % gaveup)
+        ctx.notes.append("%d concurrent driver shard(s) stopped early after 4 histories in which a call never returned" % gaveup)
     if not dead and not gaveup and len(hist) + len(noq) != len(scns) * reps:
         raise vlib.Inconclusive("driver TestX09Conc recorded %d of %d histories" % (len(hist) + len(noq), len(scns) * reps))
     ctx.log("TestX09Conc: %d histories, %d lines" % (len(hist), lines))
